@@ -1,5 +1,6 @@
 (* Executable entry of the `workqueue` model (C05): opcode :: payload -> answer. *)
-From GV Require Import Base.Prelude Incr.Protocol Incr.WorkQueue Incr.Publisher Incr.StreamQueue.
+From GV Require Import Base.Prelude Incr.Protocol Incr.WorkQueue Incr.Publisher Incr.StreamQueue
+  Incr.NodeProtocol Incr.Explore Incr.Flat.
 
 Definition nat_of (n : N) : nat := N.to_nat n.
 Definition of_nat (n : nat) : N := N.of_nat n.
@@ -187,6 +188,28 @@ Definition run (inp : list N) : list N :=
       | Some (ops, _) =>
           let '(st, outs) := sq_run sq_init ops in
           1 :: of_nat (length outs) :: flat_map enc_sqout outs
+      | None => [0]
+      end
+  (* 5: exhaustive exploration at model level: depth, env, work ->
+        ok, number of explored paths, index of the first failing path *)
+  | 5 :: depth :: r =>
+      match dpair denv dwork r with
+      | Some ((E, w), _) =>
+          let ps := paths E (candidates E) (nat_of depth) (snd (init E w)) in
+          let bad := filter (fun evs => negb (check_path E w evs)) ps in
+          [1; of_bool (match bad with [] => true | _ => false end); of_nat (length ps);
+           of_bool (flatb E); of_bool (init_ok E w)]
+          ++ match bad with
+             | [] => []
+             | evs :: _ => of_nat (length evs) :: flat_map (fun e =>
+                 match e with
+                 | TaskOk t => [0; t]
+                 | TaskFail t => [1; t]
+                 | Items x n b => [2; x; of_nat n; of_bool b]
+                 | StreamOk x => [3; x]
+                 | StreamFail x => [4; x]
+                 end) evs
+             end
       | None => [0]
       end
   | _ => [999999]
